@@ -40,6 +40,11 @@ def gen(tier, rng):
         for line in c04.exhaustive(1, ty):
             t, body, outs = from_c04(line)
             yield from cases_for(t, body, outs)
+        # the leaves created in other orders (the seeded variable after the constant / last)
+        for order in ([2, 0, 1], [0, 2, 1], [1, 2, 0]):
+            for line in c04.exhaustive(1, ty, order=order):
+                t, body, outs = from_c04(line)
+                yield from cases_for(t, body, outs)
     plan = [(2, 1, 12000), (2, 0, 3000), (3, 1, 6000), (3, 0, 1000)] if quick else [(2, 1, None), (2, 0, None), (3, 1, 100000), (3, 0, 20000)]
     for depth, ty, sample in plan:
         for line in c04.exhaustive(depth, ty, rng, sample=sample):
